@@ -72,7 +72,7 @@ def run(rep, work, tier, seed, props, replay=None):
         if "stmts" in f.get("witness", {}):
             builders.append(progs.builder_from_stmts(f["witness"]["stmts"]))
     if replay is not None:
-        builders = [progs.builder_from_stmts(replay["stmts"])]
+        builders = [progs.builder_from_stmts(replay["stmts"])] if "stmts" in replay else []    # sweep replays carry a catalogue index instead
         n = 1
     while len(builders) < n:
         builders.append(progs.gen_history(rng))
@@ -138,12 +138,17 @@ def run(rep, work, tier, seed, props, replay=None):
     # every operation of the catalogue (incl. the nnet layers, whose backward bypasses backward_var through SkipGradient): one operand is an
     # intermediate shared with a second graph that is back-propagated first; the pass through the operation must then raise InvalidBackprop
     # (or, if it returns, leave exactly the gradient of the recorded forward pass)
-    sweep, sweep_hist, sweep_bad = [], {}, 0
+    sweep, sweep_hist, sweep_bad, sweep_hist_mode = [], {}, 0, {}
     if replay is None or "catalog_index" in (replay or {}):
         from common import run_impl_parallel
         info = run_impl_parallel("ops_impl.py", [{"list": True}])[0]
         idx = list(range(info["n"])) if replay is None else [replay["catalog_index"]]
         tasks = [{"index": i, "mode": "stale", "seed": seed, "operand": k} for i in idx for k in ((0, 1, 2) if tier == "thorough" else (0, 1))]
+        # the same with the shared intermediate updated IN PLACE between the two backward() calls ("whatever happened in between (in-place updates ..."):
+        # the tensor then has a creator again (the update) but still no consumer, and the old graph must still refuse
+        tasks += [{"index": i, "mode": "stale_ip", "seed": seed, "operand": k} for i in idx for k in ((0, 1, 2) if tier == "thorough" else (0, 1))]
+        if replay is not None:
+            tasks = [dict(t, operand=replay.get("operand", t["operand"]), seed=replay.get("seed", t["seed"])) for t in tasks if t["mode"] == replay.get("mode", "stale")][:1]
         parts = [tasks[i::16] for i in range(16)]
         flat = [t for p in parts for t in p]
         for rr in run_impl_parallel("ops_impl.py", [{"tasks": p} for p in parts if p]):
@@ -153,13 +158,15 @@ def run(rep, work, tier, seed, props, replay=None):
             if "harness_error" in r:
                 raise HarnessError("ops_impl: " + r["harness_error"])
             sweep_hist[r["outcome"]] = sweep_hist.get(r["outcome"], 0) + 1
+            sweep_hist_mode[t["mode"]] = sweep_hist_mode.get(t["mode"], 0) + 1
             if r["outcome"] not in ("InvalidBackprop", "silent-correct", "identity"):
                 sweep_bad += 1
-                key = r["label"].split("(")[0].split(" ")[0]
+                key = t["mode"] + r["label"].split("(")[0].split(" ")[0]
                 if key not in shown and len(shown) < 6:
                     shown.add(key)
-                    rep.violation({"kind": "operation sweep: back-propagating through %s after the graph of one of its operands was cleared by another backward() did not raise InvalidBackprop: %s"
-                                           % (r["label"], r["outcome"]), "catalog_index": t["index"], "operand": t["operand"], "seed": t["seed"], "result": r})
+                    rep.violation({"kind": "operation sweep: back-propagating through %s after the graph of one of its operands was cleared by another backward()%s did not raise InvalidBackprop: %s"
+                                           % (r["label"], " and the operand was then updated in place" if t["mode"] == "stale_ip" else "", r["outcome"]),
+                                   "catalog_index": t["index"], "operand": t["operand"], "seed": t["seed"], "mode": t["mode"], "result": r})
     # second pass after an aborted one, for every catalogue operation: L = <C, f(.., W, ..)> with W cleared by another backward(); L.backward() aborts
     # (after f's own backward ran), W is re-used, L.backward() again: InvalidBackprop again, or exactly dL/dW of the recorded forward pass
     rt_tasks, rt_res, rt_hist, rt_bad, rt_known = [], [], {}, 0, {}
@@ -196,7 +203,7 @@ def run(rep, work, tier, seed, props, replay=None):
     nt = set(progs.canonical(b) for b in kb if nontrivial(b))
     rep.coverage.update({
         "evaluations": len(kb) + len(sweep) + len(rt_res),
-        "operation_sweep_outcomes": sweep_hist, "operation_sweep_violations": sweep_bad,
+        "operation_sweep_outcomes": sweep_hist, "operation_sweep_modes": sweep_hist_mode, "operation_sweep_violations": sweep_bad,
         "retry_sweep_outcomes": rt_hist, "retry_sweep_violations": rt_bad,
         "distinct_nontrivial": len(nt),
         "rule": "histories: 1-3 leaves, 2-7 ops, then 2-7 events drawn from {backward on a non-constant tensor, clear_graph, null_grad, 1-3 new ops on any live tensor "
